@@ -148,8 +148,17 @@ func (c *Ctx) Case(id string, input string, f func()) {
 		return
 	}
 	if c.log != nil {
-		// the full input is written hex-free but newline-escaped
-		fmt.Fprintf(c.log, "START %d %s %s\n", ord, id, strings.ReplaceAll(strings.ReplaceAll(input, "\\", "\\\\"), "\n", "\\n"))
+		// only the last START matters for crash attribution: keep the log file small
+		if ord%2000 == 0 {
+			c.log.Truncate(0)
+			c.log.Seek(0, 0)
+		}
+		in := input
+		if len(in) > 4096 {
+			in = in[:4096] + "…(truncated in the log)"
+		}
+		// the input is written newline-escaped
+		fmt.Fprintf(c.log, "START %d %s %s\n", ord, id, strings.ReplaceAll(strings.ReplaceAll(in, "\\", "\\\\"), "\n", "\\n"))
 	}
 	c.mu.Lock()
 	c.curCase, c.curInput = id, input
